@@ -96,9 +96,9 @@ func IPNetToPrefix(subnet *net.IPNet, fam AddrFamily) (p netip.Prefix, err error
 		return netip.Prefix{}, fmt.Errorf("bad ip for subnet %v: %w", subnet, err)
 	}
 
-	ones, _ := subnet.Mask.Size()
+	ones, bits := subnet.Mask.Size()
 	p = netip.PrefixFrom(addr, ones)
-	if !p.IsValid() {
+	if bits == 0 || !p.IsValid() {
 		return netip.Prefix{}, fmt.Errorf("bad subnet %v", subnet)
 	}
 
